@@ -43,6 +43,20 @@ def operator_table(ctx, crate, op, clause="site-table", only_full=False):
             if op != "and": exp += [("adv", "L"), ("adv", "R"), ("push", "L", bool(lf)), ("push", "R", bool(rf))]
             if got != sorted(exp, key=str): badd.append((lf, rf, got))
     ctx.report(clause, "%s:drains" % op, not badd, "outside the main loop: two initial reads%s" % ("" if op == "and" else ", then each drain loop re-emits the remaining cells of one operand unchanged and advances its cursor") if not badd else "differs: %s" % badd[:1], at=s.body.span, kind="N")
+    # the &mut bool handed to consume_while_overlapped_and_partial is only ever SET by the callee:
+    # it must be false when the call is made
+    from rules.bmocops import CONSP
+    for ev in s.evs:
+        if plain(ev.callee) != CONSP: continue
+        v = ev.argvals[2] if ev.argvals else None
+        bad = []
+        for lf in (0, 1):
+            for rf in (0, 1):
+                env = {("L", "is_full"): bool(lf), ("R", "is_full"): bool(rf)}
+                if not s.feasible(ev.facts, env): continue
+                if v is None or s.evalflag(v, env) is not False: bad.append((lf, rf, show(v)[:60] if v else None))
+        ctx.report(clause, "%s:overlap-flag-false-before-consume@%s" % (op, ev.site[-1][1]), not bad,
+                   "the overlap flag is false whenever consume_while_overlapped_and_partial is called" if not bad else "the flag may already be true at the call (the callee never clears it): %s" % bad[:2], at=ev.at, kind="N")
     # any site the classifier could not place?
     stray = [k for k in tab if k[0] not in [r for r, _ in REG] + ["outside"] and not k[0].startswith("depth-")]
     pre = [k for k in tab if k[0].startswith("depth-")]
@@ -74,6 +88,12 @@ def fill_helpers(ctx, crate):
         ok = bool(gos) and all(ev.args[fl_idx[ev.callee]] == C('bool', 1 if fill else 0) for ev in gos)
         ctx.report(clause, fn.split("::")[-1] + ":fill-flag", ok, "%d go_up/go_down calls, all with flag %s" % (len(gos), str(fill).lower()), at=b.span, kind="N",
                    sample={"fn": fn, "fill_flag": fill, "calls": len(gos)})
+        for ev in evs:
+            if ev.callee == M + "consume_while_overlapped_and_partial":
+                v = ev.argvals[2] if ev.argvals else None
+                ctx.report(clause, fn.split("::")[-1] + ":overlap-flag-reset-before-each-consume", v == C('bool', 0),
+                           "the overlap flag is the constant false at the call inside the loop" if v == C('bool', 0) else
+                           "the overlap flag handed to consume_while_overlapped_and_partial inside the loop is %s: once set it stays set, so the loop continues with a cell outside the container or unwraps None" % (show(v) if v else None), at=ev.at, kind="N")
         ps = [ev for ev in evs if ev.callee == PUSH]
         raws = [ev for ev in evs if ev.callee == RAW]
         if fn.endswith("::not"):
